@@ -199,7 +199,9 @@ struct Runner {
     }
     std::string name(int i) { return dir + "/o" + std::to_string(i); }
     void api(const std::string& what, const std::string& res) {
-        std::string l = "api\t" + what + "\t-\t-\t0\t" + (res.substr(0, 3) == "exc" ? "exc" : "ok") + "\n";
+        // (exporter) n = 1000000 * blocks written to the current output + items in the buffered block, after the call
+        long n = ex ? static_cast<long>(ex->get_blocks_written_count() % 2000) * 1000000L + static_cast<long>(ex->get_block_item_count() % 1000000) : 0;
+        std::string l = "api\t" + what + "\t-\t-\t" + std::to_string(n) + "\t" + (res.substr(0, 3) == "exc" ? "exc" : "ok") + "\n";
         syscall(SYS_write, g_syslog, l.data(), l.size());
     }
     int open_fd(int i) { return ::open((name(i) + ".fd").c_str(), O_CREAT | O_WRONLY | O_TRUNC, 0600); }
@@ -308,6 +310,13 @@ static ChildResult run_child(const json& sc, const std::string& dir, int crash_a
     if (sc.contains("pre")) for (auto& o : sc["pre"]) {
         std::string p = dir + "/o" + std::to_string(o.get<int>()) + (kind == "file" ? suffix(comp) : ".fd");
         std::ofstream f(p); f << pre_content(o.get<int>());
+    }
+    // final names that exist as SYMBOLIC LINKS to an earlier output (a stable "current" name pointing at the last file)
+    if (sc.contains("presym")) for (auto& o : sc["presym"]) {
+        std::string t = "t" + std::to_string(o.get<int>());
+        { std::ofstream f(dir + "/" + t); f << pre_content(o.get<int>()); }
+        std::string p = dir + "/o" + std::to_string(o.get<int>()) + suffix(comp);
+        if (symlink(t.c_str(), p.c_str()) != 0) perror("symlink");
     }
     // '.part' files left behind by an earlier run that died while producing the same names
     if (sc.contains("prepart")) for (auto& o : sc["prepart"]) {
